@@ -73,6 +73,19 @@ Theorem C03_accepted_only_if_absent : forall hash cid tok m s l' s' d,
 Proof. exact accepted_act. Qed.
 Print Assumptions C03_accepted_only_if_absent.
 
+(* ... and a request is refused only because of a call with the very same token: given injective hashing on
+   the tokens in play, the entry found by the refusing LoadOrStore belongs to a call of the programs whose
+   token is the caller's token (distinct tokens are never treated as equal; without the hypothesis:
+   C03_distinct_token_refused) *)
+Theorem C03_refused_only_same_token : forall hash progs sched t th cid tok m w,
+  hash_inj_on hash (all_toks progs) ->
+  nth_error (threads st op loc res (run hash progs sched)) t = Some th ->
+  cur op loc res th = Running (Call cid tok m) L0 ->
+  tget (hash tok) (tbl (shared st op loc res (run hash progs sched))) = Some w ->
+  snd w = tok /\ In w (calls progs).
+Proof. intros hash progs sched t th cid tok m w H. exact (refused_same_token hash progs sched t th cid tok m w H). Qed.
+Print Assumptions C03_refused_only_same_token.
+
 (* ---- the deferred removal ----
    Full statement: "the deferred LoadAndDelete of a call never removes another call's entry".
    It is FALSE of the code for calls that use one token (C03_unregister_own_refuted);
